@@ -123,6 +123,7 @@ class Monitors(object):
         self.sit = collections.Counter()     # deciding situations
         self.obs = collections.Counter()     # raw counters
         self.kills = 0
+        self.volatile_restarts = 0
         self.pending_cb = []
         self.last_ae = {}
         self.min_prev = {}
@@ -143,6 +144,11 @@ class Monitors(object):
         whose violations count for it); otherwise it is recorded once and the run goes on, so that the
         consequences for the property being checked can still be observed in the same run."""
         from .common import RAISED
+        if prop == 'C07' and self.volatile_restarts:
+            # C07 speaks about journaled nodes: a voter without a journal file that was started again (a fresh process
+            # under an old address) has legitimately forgotten its term and its vote - no claim is made about such runs
+            self.obs['c07_not_applicable_volatile_restart'] += 1
+            return None
         v = Violation(prop, kind, msg, **facts)
         stop = self.sim.stop_props
         if stop is None or prop in stop:
@@ -162,6 +168,8 @@ class Monitors(object):
 
     def on_proc_start(self, p):
         obj = p.obj
+        if p.inc > 0 and p.voter and not p.conf.journalFile:
+            self.volatile_restarts += 1
         if self.model is None:
             self.model = self.new_model()
             self.mcheap[1] = self.model.cheap()
@@ -395,15 +403,13 @@ class Monitors(object):
     def on_partition(self):
         sim = self.sim
         now = CLK.now
-        for p in sim.live():
-            if not p.voter:
-                continue
-            others = [k for k in sim.members0 if k != p.key]
-            cut = all(sim.pair_blocked(p.key, k) for k in others) and bool(others)
-            if cut and p.key not in self.cut_since:
-                self.cut_since[p.key] = (now, sim.uid)
+        for key in sim.members0:        # by address, whether or not a process runs there right now (it may restart later)
+            others = [k for k in sim.members0 if k != key]
+            cut = all(sim.pair_blocked(key, k) for k in others) and bool(others)
+            if cut and key not in self.cut_since:
+                self.cut_since[key] = (now, sim.uid)
             elif not cut:
-                self.cut_since.pop(p.key, None)
+                self.cut_since.pop(key, None)
 
     def on_state_change(self, p, old, new):
         self.obs['state_%d_%d' % (old, new)] += 1
@@ -473,29 +479,44 @@ class Monitors(object):
     def before_tick(self, p):
         p._t0 = CLK.now
         p._lead0 = p.voter and p.obj._isLeader()
+        if self.cfg.get('dynamic') and p._lead0:
+            p._voters0 = self.voters_of(p)
+
+    def silence_of_majority(self, p, others):
+        """Seconds (at the start of the tick) since the voter that completes a majority was last heard.  A voter the
+        leader has never heard counts from the later of: the start of this leadership, the moment it became a
+        voter in the leader's view."""
+        need = (len(others) + 1) // 2
+        if need < 1:
+            return None
+        base = p.leader_since if p.leader_since is not None else p._t0
+        ms = getattr(p, 'member_since', {})
+        times = sorted((max(p.heard.get(k, base), base, ms.get(k, base)) for k in others), reverse=True)
+        return p._t0 - times[need - 1]
 
     def after_tick(self, p):
-        if p.dead or not p._lead0 or self.cfg.get('dynamic'):
+        if p.dead or not p._lead0:
             return
         if not p.obj._isLeader():
             self.obs['leader_stepdowns'] += 1
             return
-        others = [k for k in self.sim.members0 if k != p.key]
-        n = len(others) + 1
-        need = n // 2
-        if need < 1:
+        if self.cfg.get('dynamic'):
+            # the member set may change inside the tick: the verdict has to hold for the set before and after it
+            views = [sorted(getattr(p, '_voters0', self.voters_of(p)) - {p.key}), sorted(self.voters_of(p) - {p.key})]
+        else:
+            views = [[k for k in self.sim.members0 if k != p.key]]
+        sil = [self.silence_of_majority(p, o) for o in views]
+        if any(x is None for x in sil):
             return
-        base = p.leader_since if p.leader_since is not None else p._t0
-        times = sorted((max(p.heard.get(k, base), base) for k in others), reverse=True)
-        kth = times[need - 1]
+        silence = min(sil)
         fb = p.conf.leaderFallbackTimeout
         self.obs['c20_leader_ticks'] += 1
-        if p._t0 - kth > fb * 0.5:
+        if silence > fb * 0.5:
             self.sit['leader_silent_half_timeout'] += 1
-        if p._t0 - kth > fb + 1e-3:
+        if silence > fb + 1e-3:
             self.flag('C20', 'no_stepdown',
                             '%r still leader after tick at t=%.3f; majority-completing voter last heard %.3fs ago > fallback %.3f'
-                            % (p, p._t0, p._t0 - kth, fb), n=n)
+                            % (p, p._t0, silence, fb), n=len(views[-1]) + 1, dynamic=bool(self.cfg.get('dynamic')))
 
     # -- core after-step evaluation -----------------------------------------------------
     def voters_of(self, p):
@@ -747,7 +768,13 @@ class Monitors(object):
                     if self.holds(p.key, idx, term):
                         continue
                     self.obs['committed_entries_dropped'] += 1
-                    p.dropped_committed.add(idx)
+                    # Dropping it is only wrong for a node that has acknowledged the term under which it was committed
+                    # (or a later one): a straggler of an older term - a read-only node, a voter outside the committing
+                    # majority - may still follow a deposed leader and swap the entry for a doomed one.
+                    if p.obj.raftCurrentTerm >= c[2]:
+                        p.dropped_committed.add(idx)
+                    else:
+                        self.sit['straggler_dropped_committed_entry_for_stale_leader'] += 1
                     voters = self.voters_of(p)
                     have, tot, ok = self.majority(voters, idx, term)
                     if not ok:
@@ -870,7 +897,13 @@ class Monitors(object):
         p.last_commit = c1
         p.last_applied = a1
         if self.cfg.get('dynamic'):
-            p.prev_members = self.voters_of(p)
+            now_members = self.voters_of(p)
+            ms = getattr(p, 'member_since', None)
+            if ms is None:
+                ms = p.member_since = {}
+            for k in now_members - (getattr(p, 'prev_members', None) or set()):
+                ms[k] = CLK.now
+            p.prev_members = now_members
         self.check_leader(p)
         if p.voter:
             self.note_ack_term(p, obj.raftCurrentTerm)
@@ -902,6 +935,10 @@ class Monitors(object):
                 if m is not None and m[0] == 'ret' and canon_value(res) != m[1]:
                     self.flag('C02', 'success_wrong_result', 'uid %d SUCCESS result %r, executing position %d returns %r'
                                     % (uid, res, pos, m[1]))
+                if m is not None and m[0] == 'exc' and res is not None:
+                    # the command raised when it was executed: it has no result, least of all some other command's
+                    self.flag('C02', 'success_wrong_result', 'uid %d SUCCESS result %r, but executing position %d raises %s'
+                                    % (uid, res, pos, str(m[1])[:80]), raised=True)
                 self.obs['success_checked'] += 1
                 if sub.get('role') != 'leader':
                     self.sit['success_for_forwarded_command'] += 1
@@ -1020,7 +1057,7 @@ class Monitors(object):
                 # one at a time: a queue limit of 0 admits a single waiting command
                 p = sim.rng.choice(live)
                 before = sim.uid
-                sim.one_step(('S', p.key, 'kv', 'append', ('$UID',)))
+                sim.one_step(sim.final_command(p))
                 if sim.uid > before:
                     q['final'].append(sim.subs[100000 + sim.uid])
                     q['todo'] -= 1
